@@ -18,6 +18,7 @@ from ..run import Outcome
 
 ID = "C03"
 BUDGET = {"quick": 16000, "thorough": 200000}
+FUZZ = {"thorough": 4000}  # coverage-guided stage: libFuzzer runs per worker (x16), see vk/fuzz.py
 RULE = (
     "Hypothesis, three kinds of case: (frac) direct fractional_transfer calls and (rand) direct "
     "random_transfer calls on a generated ballot list (winner-led ballots with and without a "
